@@ -10,6 +10,9 @@ CLAIMED = {
  "C02": ("model_checking", "bit-precise FP queries over all float32 values (z3/cvc5 portfolio), reals-with-rounding-error queries, uninterpreted-table wiring, exhaustive ground table obligations",
          "Clamp/range/no-panic for every float32 bit pattern incl. NaN; monotonicity for all pairs; |N(x)-S*x| <= 0.5+s_N; encoders are LUT[N(x)] on both init paths and colour types use the right encoder; all 3 x 66,048 encode-table entries within 0.5+s_T codes of the published OETF.",
          "Trusted: executor, solvers, IEEE-754 rounding model (|err| <= u|x|+eta, monotone) for the real-arithmetic parts, gc/amd64 float->int conversion model. Literal half-code reading is relaxed by the a-priori slacks of DESIGN 3.1.", "DESIGN.md 5 C02"),
+ "C20": ("model_checking", "exact real arithmetic with rational functions (NRA) for algebra/inverse/primaries; bit-precise float64 queries for exact singularity",
+         "Matrix algebra equals the textbook definitions for all reals; M*Inverse(M)=Inverse(M)*M=I for |det|>=1e-3; generated primaries matrices map (1,1,1) to the white point and unit primaries to their chromaticities for all non-degenerate triangles; Inverse panics on zero/equal-column float64 matrices.",
+         "Trusted: executor, solvers, rounding budget for the real parts. Not machine-checked: non-singularity of generated matrices (inverse relation follows from the generic inverse theorem when Inverse returns); equal columns 0=2.", "DESIGN.md 5 C20"),
  "C05": ("model_checking", "bounded symbolic execution of the real loaders (go/ssa -> SMT-LIB2 bit-vectors, z3)",
          "Every metadata field is proved equal to the container specification's bytes by an unsat verdict over all values of every symbolic header/payload byte of the skeleton files; bounded by skeleton shape (<=2 ancillary chunks/segments, payloads <=5 bytes).",
          "Trusted: go/ssa construction, the gosym executor (cross-validated natively on sampled path models each run), z3 4.8.12. Oracle is the PNG/JPEG/RIFF-WebP byte layout written in the harness, not DecodeConfig.", "DESIGN.md 5 C05"),
@@ -37,6 +40,12 @@ CLAIMED = {
  "C10": ("model_checking", "bounded symbolic execution of linear.TransformImageColor with all pixel bytes symbolic and a symbolically keyed per-colour function, compared byte-for-byte with a reference built by the standard library's Set; uninterpreted per-colour functions for the wiring of the 8 public transforms",
          "For each explored (source type, destination type, geometry, destination origin, parallelism) configuration and all pixel contents and keys at once, the destination parent's storage equals the reference (per-pixel function at dst.Min+(p-src.Min), everything else untouched); in-place use equals the function of the original pixels; each public image transform is TransformImageColor with its own package's per-colour function.",
          "Trusted: executor (merging/if-conversion cross-validated natively), z3, image/color and image Set/At as the definition of colour-model conversion; workers run sequentially (C11 covers their independence). f ranges over an XOR-keyed family (symbolic keys), not all functions.", "DESIGN.md 5 C10"),
+ "C12": ("model_checking", "symbolic execution in exact real arithmetic with rational-function tracking; polynomial (in)equalities decided by z3/cvc5 (NRA)",
+         "For all valid white-point pairs: A->B maps white A to white B within 1e-6, equals the Bradford-method matrix built independently from the published constants within 1e-6 per entry, A->A is the identity, xyY and XYZ constructors coincide, Apply is the matrix-vector product. Round trip A->B->A is in the thorough tier; three-point composition is attempted there and reported as a reduced bound if undecided.",
+         "Trusted: executor, solvers; float rounding not modelled (exact reals over the float64-rounded constants the code uses): rounding budget assumption.", "DESIGN.md 5 C12"),
+ "C13": ("model_checking", "symbolic execution in exact real arithmetic; cube roots as witnesses c^3=x; every branch combination a path; NRA queries",
+         "ToLAB equals the CIE 1976 definition (written independently) within 1e-3 on the stated boxes, white maps to (100,0,0), multiples of white are neutral, L* monotone in Y, f continuous across the junction, XYZ->Lab->XYZ within 1e-5, no NaN/Inf (positive cube-root bases, non-zero divisors on every path).",
+         "Trusted: executor, solvers, exact math.Pow contract (its accuracy outside the claim), rounding budget. Lab->XYZ->Lab is thorough-only/undecided.", "DESIGN.md 5 C13"),
  "C14": ("model_checking", "bit-precise FP queries (alpha round trip for all alphas), symbolic wiring per space with uninterpreted tables, per-alpha real-arithmetic obligations with rounding-error variables, ground table lemma",
          "Alpha passes through decode and encode bit-identically for all 65536/256 alphas; constructors return exactly A/max and zero colour for transparent premultiplied/generic pixels; opaque constructors agree; linearised premultiplied channels stay <= alpha for every r<=a (symbolic r) for the explored alphas, given the exhaustively checked table lemma T16[r]<=r/65535.",
          "Trusted: executor, solvers, IEEE rounding model for the real-arithmetic part; quick tier explores 1033 alphas (thorough: all). ColorFromNRGBA on a transparent pixel keeps the colour (not claimed).", "DESIGN.md 5 C14"),
